@@ -270,6 +270,94 @@ def run_pair(role, script, how, with_adversary):
     return res, after, sim.alive, repr(sim.loop_error)[:160] if sim.loop_error else ''
 
 
+def realnet_stalls(chk):
+    """(iii) RealNet: TLS handshakes.  A client (or an upstream) that completes TCP and then stays silent must not keep the worker from
+    serving a well-behaved connection: the canary must get the same answer as alone, within seconds."""
+    import os
+    import ssl as _ssl
+    import time
+    import threading
+    from harness import realnet, tlsfix
+    from checks.c11 import tls_origin, RESP as TLS_RESP
+    d = tlsfix.ensure()
+    cases, descs = [], {}
+    origin = tls_origin(d, 'trusted')
+    silent = socket.socket()
+    silent.bind(('127.0.0.1', 0))
+    silent.listen(8)
+    procs = []
+
+    def tls_canary(port, intercept_origin=None):
+        t0 = time.time()
+        out = b''
+        try:
+            s = socket.create_connection(('127.0.0.1', port), timeout=4)
+            if intercept_origin is not None:
+                s.sendall(b'CONNECT localhost:%d HTTP/1.1\r\nHost: localhost\r\n\r\n' % intercept_origin)
+                head = b''
+                s.settimeout(4)
+                while b'\r\n\r\n' not in head:
+                    x = s.recv(4096)
+                    if not x:
+                        break
+                    head += x
+                ctx = _ssl.create_default_context(cafile=os.path.join(d, 'ca-cert.pem'))
+            else:
+                ctx = _ssl.create_default_context(cafile=os.path.join(d, 'octa-cert.pem'))
+            t = ctx.wrap_socket(s, server_hostname='localhost')
+            t.sendall(b'GET /canary HTTP/1.1\r\nHost: localhost\r\n\r\n')
+            out, _e = realnet.read_quiet(t, quiet=0.4, first=4.0)
+            t.close()
+        except Exception as e:     # noqa
+            out = b'<canary failed: ' + type(e).__name__.encode() + b'>'
+        return {'cgot': list(out[:300]), 'ugot': [], 'ceof': time.time() - t0 > 4.0}
+    scenarios = []
+    try:
+        # A: TLS-terminating proxy (--key-file / --cert-file), adversary = TCP connect, then silence
+        pa = realnet.ProxyProc('local', extra=['--enable-web-server', '--key-file', os.path.join(d, 'trusted-key.pem'), '--cert-file', os.path.join(d, 'trusted-cert.pem')])
+        procs.append(pa)
+        scenarios.append(('TLS termination: client connects and stays silent (no ClientHello)', pa, None,
+                          lambda: [socket.create_connection(('127.0.0.1', pa.port))]))
+        # B / C: TLS interception
+        tmp = tempfile.mkdtemp(prefix='c05-certs-')
+        pb = realnet.ProxyProc('local', extra=['--ca-key-file', os.path.join(d, 'ca-key.pem'), '--ca-cert-file', os.path.join(d, 'ca-cert.pem'),
+                                               '--ca-signing-key-file', os.path.join(d, 'ca-signing-key.pem'), '--ca-cert-dir', tmp,
+                                               '--ca-file', os.path.join(d, 'octa-cert.pem')])
+        procs.append(pb)
+
+        def adv_b():
+            a = socket.create_connection(('127.0.0.1', pb.port))
+            a.sendall(b'CONNECT localhost:%d HTTP/1.1\r\nHost: localhost\r\n\r\n' % origin.port)
+            return [a]
+
+        def adv_c():
+            a = socket.create_connection(('127.0.0.1', pb.port))
+            a.sendall(b'CONNECT localhost:%d HTTP/1.1\r\nHost: localhost\r\n\r\n' % silent.getsockname()[1])
+            return [a]
+        scenarios.append(('TLS interception: client sends CONNECT and then stays silent (no ClientHello)', pb, origin.port, adv_b))
+        scenarios.append(('TLS interception: upstream accepts TCP and never answers the ClientHello', pb, origin.port, adv_c))
+        for name, px, iport, adv in scenarios:
+            tls_canary(px.port, iport)                      # warm-up (certificate generation)
+            alone = tls_canary(px.port, iport)
+            held = adv()
+            time.sleep(0.4)
+            with_ = tls_canary(px.port, iport)
+            for h in held:
+                h.close()
+            time.sleep(0.5)
+            after = tls_canary(px.port, iport)
+            cid = 900000 + len(cases) + 1
+            cases.append({'id': cid, 'alone': alone, 'with': with_, 'after': {'cgot': after['cgot'] if after['cgot'] != alone['cgot'] else alone['cgot'], 'ugot': []},
+                          'alive': True, 'err': ''})
+            descs[cid] = {'adversary': name, 'role': 'realnet-tls', 'script': []}
+    finally:
+        for p_ in procs:
+            p_.stop()
+        origin.stop()
+        silent.close()
+    return cases, descs
+
+
 def run(chk):
     quick = chk.tier == 'quick'
     rnd = random.Random(chk.seed * 41 + 3)
@@ -318,6 +406,9 @@ def run(chk):
         cid = len(cases) + 1
         cases.append({'id': cid, 'alone': alone[role][0], 'with': res, 'after': after, 'alive': alive, 'err': err})
         descs[cid] = {'adversary': desc, 'role': role, 'script': [list(map(lambda x: x.decode('latin1')[:60] if isinstance(x, bytes) else x, s)) for s in script]}
+    rcases, rdescs = realnet_stalls(chk)
+    cases += rcases
+    descs.update(rdescs)
     results, rej = tlc.run_sharded('TraceIsolation', 'TraceIsolation.cfg', cases, shards=16, timeout=900)
     m = tlc.Merged(results)
     chk.add_tlc('TraceIsolation (%d adversary/canary executions of the real handler stack)' % len(cases), m)
@@ -329,10 +420,12 @@ def run(chk):
         d = descs[cid]
         err = byid[cid]['err']
         sig = {'part': 'handlers', 'clause': clause.split(':')[0][:70], 'error': err.split('(')[0][:40], 'role': d['role']}
+        if d['role'] == 'realnet-tls':
+            sig = {'part': 'realnet-tls', 'adversary': d['adversary']}
         chk.violation(sig, '%s: %s' % (d['adversary'], clause), {'case': d, 'loop_error': err})
     chk.cov['adversaries'] = len(cases)
     chk.sample({'part': 'handler stack', 'case': descs[1]})
-    chk.assume('blocking TLS handshakes of the interception role are not exercised on SimNet (DESIGN.md F18)',
+    chk.assume('TLS handshakes are exercised on RealNet only: silent client / silent upstream against a real TLS-terminating or intercepting proxy',
                'peers act between loop iterations (reduction argument)',
                'socket errors are injected as one-shot faults on the proxy-side socket objects')
 
